@@ -72,7 +72,7 @@ type c07Case struct {
 var profC07Frames = Profile{
 	MaxBars: 8, MinBars: 3, MaxSteps: 30, Refresh: []string{"manual"}, QLens: []int{-1},
 	Pop: 20, Rm: 40, AbortW: 4, TicksW: 10, Ext: 20, Text: 1, Pty: 100, PtyRowsMax: 5,
-	PlainDecors: 1, SyncDecors: 1, Fillers: []string{"bar", "nop", "spinner", "spinnerv", "bartip"}, LateAdd: true, ChurnW: 2, BuiltinPct: 30, // (the harness's own "tag" filler ignores the width it is given)
+	PlainDecors: 1, SyncDecors: 1, Wraps: true, Fillers: []string{"bar", "nop", "spinner", "spinnerv", "bartip"}, LateAdd: true, ChurnW: 2, BuiltinPct: 30, // (the harness's own "tag" filler ignores the width it is given)
 }
 
 func init() {
@@ -452,6 +452,19 @@ func runC07(ci interface{}) Result {
 	case "frames":
 		r.Kind = "frames"
 		tr := engine.Run(c.Scen, engine.Options{})
+		if tr.Hang != nil && tr.Inconclusive == "" {
+			// "rendering always terminates": a deadlock with a goroutine stuck inside a
+			// bar's render (its filler, a decorator's Format, the width exchange) is a
+			// frame that is never finished; other hangs are C01's
+			where := fmt.Sprint(tr.Hang.Where)
+			for _, fn := range []string{".(*Bar).render", "WC).Format", ".Fill", "maxWidthDistributor", ".Decor"} {
+				if strings.Contains(where, fn) {
+					r.Err = fmt.Errorf("%s at %s with a goroutine inside a bar's rendering (%s): the frame is never finished; goroutines %v", tr.Hang.Kind, tr.Hang.AtStep, fn, tr.Hang.Where)
+					r.Kind = "render-does-not-terminate"
+					return r
+				}
+			}
+		}
 		if tr.Inconclusive != "" || tr.Hang != nil {
 			r.Inconclusive = tr.Inconclusive != ""
 			return r
